@@ -1857,5 +1857,38 @@ def with_double_faults(docs, rng, n=4):
     return out
 
 
-FAMILIES = {f.name: f for f in (Ids(), Keys(), XsiType(), Subst(), Fixed(), Wild(), Ns(), Mixed(),
+class VCond(Family):
+    """Conditional inclusion (vc:typeAvailable / vc:typeUnavailable / vc:minVersion): what a declaration document
+    contributes is decided WHILE it is loaded, against the components known at that moment."""
+    name = 'vcond'
+    paths = ('a',)
+
+    def sources(self, version):
+        return {'vcond.xsd': f'''<xs:schema {XS} xmlns:vc="http://www.w3.org/2007/XMLSchema-versioning">
+ <xs:element name="r">
+  <xs:complexType><xs:sequence>
+   <xs:element name="a" type="xs:int" vc:typeAvailable="xs:int" maxOccurs="unbounded"/>
+   <xs:element name="b" type="xs:string" vc:typeUnavailable="xs:int" minOccurs="0"/>
+   <xs:element name="c" type="xs:date" vc:typeAvailable="xs:noSuchType" minOccurs="0"/>
+   <xs:element name="d" type="xs:string" vc:typeUnavailable="xs:noSuchType xs:alsoNone" minOccurs="0"/>
+   <xs:element name="e" type="xs:string" vc:minVersion="1.1" minOccurs="0"/>
+  </xs:sequence></xs:complexType>
+ </xs:element>
+ <xs:element name="only-with-int" type="xs:int" vc:typeAvailable="xs:int xs:string"/>
+ <xs:element name="never" type="xs:int" vc:typeAvailable="xs:int xs:noSuchType"/>
+</xs:schema>'''}
+
+    def docs(self, rng):
+        return [
+            Doc('vc-valid', _decl() + '<r><a>1</a><a>2</a><d>x</d></r>'),
+            Doc('vc-bad-a', _decl() + '<r><a>one</a></r>', 'fault:lexical'),
+            Doc('vc-excluded-b', _decl() + '<r><a>1</a><b>x</b></r>', 'fault:structure'),
+            Doc('vc-excluded-c', _decl() + '<r><a>1</a><c>2020-01-01</c></r>', 'fault:structure'),
+            Doc('vc-version-e', _decl() + '<r><a>1</a><e>x</e></r>', kind='valid11'),
+            Doc('vc-global', _decl() + '<only-with-int>5</only-with-int>'),
+            Doc('vc-global-never', _decl() + '<never>5</never>', 'fault:structure'),
+        ]
+
+
+FAMILIES = {f.name: f for f in (VCond(), Ids(), Keys(), XsiType(), Subst(), Fixed(), Wild(), Ns(), Mixed(),
                                 Assert11(), Recur(), Multi(), Multi2(), Shadow(), IdFields(), Dtd(), Chameleon(), Big(), OnDemand(), Simple(), Grouped(), LaxBuilt(), DeepKey())}
